@@ -160,6 +160,7 @@ def multi_index(draw, n):
 
 
 numbers = st.one_of(st.integers(-5, 5), st.sampled_from([0, 1, -1, 0.0, 2.5, -0.375, 1e-3, 1e3, -7.0]),
+                    st.sampled_from([1e-17, -1e-17, 1e-16, -1.0000001e-16, 3e-16, 1e-30, -1e-30]),
                     reals(-10, 10))
 
 
